@@ -189,6 +189,36 @@ def generic_setter_history(member):
     return False, dict(note=f"{n} histories (k-point configurations x values x build / SCF construction) agree with fresh objects")
 
 
+def helper_histories():
+    """BOUNDED histories for the helper methods of Atoms: recenter (structure factors follow the new positions) and set_k (default weights)."""
+    bad = []
+    # recenter: the object equals a fresh object with the same final positions
+    for center in (None, [1.0, 2.0, 3.0]):
+        a = _mk(atom=["Si", "C"], pos=[[0.3, 0.1, 0.2], [1.5, 2.4, 0.3]], a=[[6.0, 0.5, 0.0], [0.0, 7.0, 0.0], [0.3, 0.0, 8.0]])
+        a.kpts.kmesh = [2, 1, 1]
+        a.build()
+        a.recenter(center)
+        f = _mk(atom=["Si", "C"], pos=np.asarray(a.pos).tolist(), a=[[6.0, 0.5, 0.0], [0.0, 7.0, 0.0], [0.3, 0.0, 8.0]])
+        f.kpts.kmesh = [2, 1, 1]
+        f.build()
+        d = _diff(_summary(a), _summary(f))
+        if d:
+            bad.append(dict(history=f"Atoms(Si, C); build(); recenter({center})  vs  fresh object at the final positions", fields_that_differ=d))
+        a.build()
+        d = _diff(_summary(a), _summary(f))
+        if d:
+            bad.append(dict(history=f"... recenter({center}); build()", fields_that_differ=d))
+    # set_k without weights: equal weights summing to one, for the object and its occupations
+    a = _mk()
+    a.build()
+    a.set_k([[0.1, 0.0, 0.0], [0.2, 0.1, 0.0], [0.0, 0.3, 0.1]])
+    a.build()
+    wk = np.asarray(a.kpts.wk)
+    if wk.shape != (3,) or not np.allclose(wk, 1 / 3) or not np.allclose(np.asarray(a.occ.wk), 1 / 3):
+        bad.append(dict(history="build(); set_k(three points, no weights); build()", kpts_wk=wk.tolist(), occ_wk=np.asarray(a.occ.wk).tolist()))
+    return bool(bad), dict(check="Atoms.recenter / Atoms.set_k against fresh objects", failing=bad[:4])
+
+
 def replay_history(wit):
     key = (wit["cls"], wit["member"]) + ((True,) if wit.get("persist") else ())
     S = _scenarios()
